@@ -124,7 +124,18 @@ func (cfg *Config) applyDenylist() {
 }
 
 func (cfg *Config) applyOverrides() error {
-	for name, value := range cfg.overrides {
+	// One refused value does not keep the other overrides from being
+	// installed (which ones, would depend on the iteration order of the map):
+	// all are applied, in the order of their names, and the first error is
+	// reported afterwards
+	names := make([]string, 0, len(cfg.overrides))
+	for name := range cfg.overrides {
+		names = append(names, name)
+	}
+	sort.Strings(names)
+	var firstErr error
+	for _, name := range names {
+		value := cfg.overrides[name]
 		parts := strings.Split(name, ".")
 		if len(parts) == 1 {
 			cfg.globals[name] = value
@@ -132,7 +143,10 @@ func (cfg *Config) applyOverrides() error {
 		}
 		valueObj := object.FromGoType(value)
 		if valueObj == nil || valueObj.Type() == object.ERROR {
-			return fmt.Errorf("init error: invalid value for global override: %v", value)
+			if firstErr == nil {
+				firstErr = fmt.Errorf("init error: invalid value for global override: %v", value)
+			}
+			continue
 		}
 		moduleName := parts[0]
 		nestedModulePath := parts[1 : len(parts)-1]
@@ -145,7 +159,7 @@ func (cfg *Config) applyOverrides() error {
 			}
 		}
 	}
-	return nil
+	return firstErr
 }
 
 // CompilerOpts returns compiler options derived from this configuration.
